@@ -7,6 +7,7 @@ import (
 	"fmt"
 
 	"github.com/cockroachdb/redact"
+	"github.com/cockroachdb/redact/internal/buffer"
 )
 
 const (
@@ -112,6 +113,8 @@ func H_c13(p []int) {
 		}
 		var taken []byte
 		var takenS redact.RedactableString
+		earlyS := b1.String()
+		earlySCopy := append([]byte{}, earlyS...)
 		switch which {
 		case 0:
 			b1.Reset()
@@ -126,6 +129,7 @@ func H_c13(p []int) {
 			applyBuilder(&b1, o)
 			applyBuilder(&fresh, o)
 		}
+		vAssert(bytesEq([]byte(earlyS), earlySCopy), "C13/early-plain-string-stable")
 		r1, r2 := []byte(b1.RedactableString()), []byte(fresh.RedactableString())
 		vObserve("r1", r1)
 		vAssert(bytesEq(r1, r2), "C13/pristine-after-reset-or-take")
@@ -163,6 +167,9 @@ func H_c13(p []int) {
 		}
 		var taken []byte
 		var takenS redact.RedactableString
+		earlyS := b1.String()
+		earlySCopy := append([]byte{}, earlyS...)
+		defer func() { vAssert(bytesEq([]byte(earlyS), earlySCopy), "C13/early-plain-string-stable") }()
 		switch which {
 		case 0:
 			b1.Reset()
@@ -192,6 +199,24 @@ func H_c13(p []int) {
 		if which == 1 {
 			vAssert(bytesEq([]byte(takenS), taken), "C13/taken-string-stable")
 		}
+	case 4:
+		// raw bytes (possibly ending in a truncated sequence), then a mode
+		// switch with nothing written since: the accessors agree with each
+		// other and with Take
+		var b1 redact.ManualBuffer
+		raw := vBytes(n)
+		b1.SetMode(buffer.SafeRaw)
+		b1.Write(raw)
+		b1.SetMode([]buffer.OutputMode{buffer.UnsafeEscaped, buffer.SafeEscaped, buffer.SafeRaw}[which])
+		rs := []byte(b1.RedactableString())
+		rb := []byte(b1.RedactableBytes())
+		vObserve("r1", rs)
+		vAssert(bytesEq(rs, rb), "C13/accessors-agree")
+		vAssert(b1.Len() == len(rs), "C13/len")
+		st := []byte(b1.String())
+		tk := []byte(b1.TakeRedactableString())
+		vAssert(bytesEq(tk, rs), "C13/take-agrees-with-accessor")
+		vAssert(bytesEq(st, strip(rs)), "C13/string-agree")
 	}
 	vCover(true, "ran")
 }
